@@ -39,8 +39,12 @@ template <int OP> static void step(ctx& c) {
     img_t& a = c.a; img_t& b = c.b; model& ma = c.ma; model& mb = c.mb; pixel_t fillp = c.fillp; int idb = c.idb; int w3 = c.w3, h3 = c.h3, a3 = c.a3;
     try {
         if (OP == 0) { a.recreate(w3, h3, (std::size_t)a3); ma = {w3, h3, a3, true}; }
-        if (OP == 1) { a.recreate(w3, h3, fillp, (std::size_t)a3); ma = {w3, h3, a3, true};
-                       if (w3 > 0 && h3 > 0) { int x = vp_range(0, 3); int y = vp_range(0, 3); vp_assume(x < w3 && y < h3); vp_assert(gil::view(a)(x, y) == fillp, "op.recreate_fill_value"); } }
+        if (OP == 1) { // recreate to the dimensions the image already has is a no-op in GIL, also for the overload with a fill value (the old
+                       // contents stay): the property asks for dimensions / alignment / storage reuse, not for the fill, so the fill value
+                       // is only checked when the image really was recreated
+                       bool same_dims = (int)a.width() == w3 && (int)a.height() == h3;
+                       a.recreate(w3, h3, fillp, (std::size_t)a3); ma = {w3, h3, a3, true};
+                       if (w3 > 0 && h3 > 0 && !same_dims) { int x = vp_range(0, 3); int y = vp_range(0, 3); vp_assume(x < w3 && y < h3); vp_assert(gil::view(a)(x, y) == fillp, "op.recreate_fill_value"); } }
         if (OP == 2) { a.recreate(w3, h3, (std::size_t)a3, alloc_t(1)); ma = {w3, h3, a3, true}; }
         if (OP == 3) { a = b; ma = {mb.w, mb.h, -1, true}; vp_assert(a == b, "op.copy_assign_equal"); }
         if (OP == 4) { a = std::move(b); ma = {mb.w, mb.h, -1, true}; mb = {0, 0, 0, false}; }
